@@ -49,7 +49,7 @@ func runC17(c *core.Ctx) {
 	c.Doc("C17.queue-owner", "every MakeHandler gets a private queue made by the registering function", 8)
 	ruleQueueOwnership(c, a, "C17.queue-owner")
 
-	c.Doc("C17.pairing", "mutex operations balanced on every path (bus/net)", 4)
+	c.Doc("C17.pairing", "mutex operations balanced on every path (bus/net)", 2)
 	lockPairing(c, lc, "C17.pairing", srcFuncsOfPkg(c, "bus/net"))
 
 	c.Doc("C17.callbacks", "closers and filters (run under handlersMutex) do not re-enter it and cannot block", 10)
